@@ -505,7 +505,7 @@ class Engine(NumericMixin, EvalMixin, ExecMixin, CallMixin, BuiltinMixin):
             return 'unsat', None
         # 1st attempt: E-matching only (Boogie-style; stable on verification conditions)
         s = z3.Solver()
-        s.set('timeout', max(2000, timeout_ms // 2))
+        s.set('timeout', min(4000, max(2000, timeout_ms // 2)))
         s.set('auto_config', False)
         s.set('smt.mbqi', False)
         ax = [a for _, a in self.axioms()]
@@ -521,13 +521,28 @@ class Engine(NumericMixin, EvalMixin, ExecMixin, CallMixin, BuiltinMixin):
                 return 'unsat', None
         except (z3.Z3Exception, ValueError, RecursionError):
             pass
-        # 3rd attempt: default configuration (MBQI on): can also produce counter-models
-        s = z3.Solver()
-        s.set('timeout', timeout_ms)
-        s.add(ax)
-        s.add(ob.pc)
-        s.add(z3.Not(ob.goal))
-        r = s.check()
+        # 3rd attempt: default configuration (MBQI on): can also produce counter-models.
+        # A small portfolio of random seeds: quantifier instantiation is sensitive to term order, and a
+        # verdict must not depend on it (any unsat is a proof; sat is only taken from the first run).
+        r = None
+        for k_, seed_ in enumerate((0, 7, 23)):
+            s = z3.Solver()
+            s.set('timeout', timeout_ms if k_ == 0 else max(3000, timeout_ms // 2))
+            if seed_:
+                s.set('random_seed', seed_)
+                s.set('smt.random_seed', seed_)
+                s.set('smt.phase_selection', 5)
+            s.add(ax)
+            s.add(ob.pc)
+            s.add(z3.Not(ob.goal))
+            r_ = s.check()
+            if r_ == z3.unsat:
+                return 'unsat', None
+            if k_ == 0:
+                r, s0 = r_, s
+                if r_ == z3.sat:
+                    break
+        s = s0
         if r == z3.unsat:
             return 'unsat', None
         if r == z3.sat:
